@@ -1,0 +1,14 @@
+//go:build verif
+
+package webp
+
+import "image"
+
+// Verification hooks for the alpha glue of the lossy encoder (property C07).
+// Compiled only with the build tag "verif"; they add no behaviour of their own.
+
+// VerifImageHasAlpha is imageHasAlpha.
+func VerifImageHasAlpha(img image.Image) bool { return imageHasAlpha(img) }
+
+// VerifExtractAlpha is extractAlphaWith(img, imageHasAlpha(img)).
+func VerifExtractAlpha(img image.Image) []byte { return extractAlphaWith(img, imageHasAlpha(img)) }
